@@ -189,6 +189,43 @@ CHECKS = [
         "'Completely masked' is the code's own predicate (never for RGB/integers; all channels NaN for F16x3). jpg content, "
         "non-lossless (format, mode) pairs and mismatched rectangles are outside the model.",
         "machine-checked proof (Coq) + model/implementation correspondence by vm_compute and per-pixel comparison", "DESIGN.md section 5, C15"),
+    chk("C04",
+        "Coq theorems at two layers. Term layer (exact, executable, generic in the point type, every depth/position, both "
+        "systems): the four routes (full enumeration, filtered enumeration, create_single_tile, lookup descent with any score "
+        "oracle) yield the same corner terms and diagonal flag (routes_agree), the vertex lattice with shared corners/edges "
+        "between neighbours at equal and different depths modulo Mid commutativity, boundary gluing, the documented layout "
+        "and equator diamond. Real layer (Coq reals): one HTM step for arbitrary positive midpoint scalings lifted by "
+        "induction to: every direction lies in some depth-n tile, tile interiors are disjoint, children tile their parent "
+        "exactly, nesting. Tie to /repo: toasty.toast.mid is replaced by a recorder and every corner produced by the four "
+        "real routes is compared with the Coq model (explicit terms to depth 3, a 63-bit hash image beyond). Partial: 'areas "
+        "sum to 4 pi' is not formalised (no spherical measure; its geometric content is the partition theorem); "
+        "toast_tile_area and the libm-based _mid are validated numerically only.",
+        "Real-layer theorems use the standard library's real-number axioms (ClassicalDedekindReals.sig_forall_dec, "
+        "sig_not_dec, functional_extensionality_dep); term-layer theorems are closed. Uint63 primitives are kernel "
+        "primitives. The .pyx is tied through harness/pyx2py.py and toast_terms.PyxModel (bit-identical to the .so).",
+        "machine-checked proof (Coq: exact term layer + real-number layer) + model/implementation correspondence by vm_compute (recorded terms, hash image) + numeric validation tests", "DESIGN.md section 5, C04"),
+    chk("C05",
+        "Coq theorems: subsample k = centres of the tiles k levels deeper for every k, tile and pixel (row index -> y bits, "
+        "column -> x bits; terms modulo Mid commutativity; equality in R^3), in particular pixel (i,j) of (n,x,y) is the "
+        "centre of (n+8, 256x+j, 256y+i); every pixel centre lies inside its tile; the equatorward latitude bound "
+        "(cap convexity). Partial: the poleward latitude bound is unproved (lat_range_partial) and is validated numerically, "
+        "exhaustively to depth 3 (quick) / 5 (thorough). Tie to /repo: _subsample is read from the .pyx source by a "
+        "fail-closed parser whose interpreter must agree with the Coq model on the hash image and with the .so bit-for-bit; "
+        "toast_tile_get_coords compared with centres of create_single_tile tiles.",
+        "Real-layer theorems use the standard library's real-number axioms. Float rounding outside the model.",
+        "machine-checked proof (Coq: exact term layer + real-number layer) + model/implementation correspondence by vm_compute (recorded terms, hash image) + numeric validation tests", "DESIGN.md section 5, C05"),
+    chk("C12",
+        "Coq theorems: the descent's selection rule (first zero score, else first maximal), the lookup arrives at the tile of "
+        "its position, nesting of the answers for increasing depth, level-1 choice per coordinate system (the pre-fix planetary "
+        "choice is kept as refutation witness), and over exact reals: the four-half-space score is triangle-union containment, "
+        "lookup_contains for every latitude in [-pi/2, pi/2], every real longitude, every depth and both systems, 2pi-"
+        "periodicity. NOT decided by proof: the pixel-position clause (biquadratic lstsq fit within 2 px) has no executable "
+        "Gallina model; a property-level numeric test on the implementation stands in (points >= 1 deg from the poles, four "
+        "quadrants, both systems). Tie to /repo: scripted-score runs of the real toast_tile_for_point and level-1 choices "
+        "compared in Coq; containment of the returned tile judged with a 1e-9 margin.",
+        "Containment is proved for exact arithmetic; the float code may pick a neighbour on shared edges (allowed by the "
+        "statement). Real-number axioms as C04.",
+        "machine-checked proof (Coq: exact term layer + real-number layer) + model/implementation correspondence by vm_compute (recorded terms, hash image) + numeric validation tests", "DESIGN.md section 5, C12"),
     chk("C19",
         "The faithful LTS models of the current code refute the property (Coq theorems c19_visit_returns_normally_refuted, "
         "c19_visit_hangs_refuted/deadlock, c19_walk_hangs_refuted, each a concrete schedule evaluated by the kernel); the "
